@@ -83,8 +83,11 @@ class Pi(schemes.interface.inverted_index_sse.InvertedIndexSSE):
         for i in range(t + 1):
             d_len = (2 ** i) * len(self.config.ske.Encrypt(b"\x00" * self.config.param_k_prime,
                                                            b"\x00" * self.config.param_identifier_size))
+            # a list stored in level i >= 1 has more than 2^(i-1) real identifiers, so level i can receive up to
+            # 2^(t-i+1) - 1 lists (level 0: 2^t); pad to that bound so the table size does not depend on the lists
+            level_capacity = 2 ** t if i == 0 else 2 ** (t - i + 1)
             T_list[i].extend(
-                ((os.urandom(self.config.param_l), os.urandom(d_len)) for _ in range((2 ** (t - i)) - len(T_list[i]))))
+                ((os.urandom(self.config.param_l), os.urandom(d_len)) for _ in range(level_capacity - len(T_list[i]))))
 
         # padding list S to N elements; a dummy value is as long as an encrypted list length
         ni_prime_len = len(self.config.ske.Encrypt(b"\x00" * self.config.param_k_prime,
